@@ -218,7 +218,17 @@ func c09Handshakes(c *core.Ctx) {
 		auth ssh.AuthMethod
 		want bool
 	}
+	// the account that runs the server has an authorized-keys file of its own (key 3): it is nobody else's
+	home := core.Scratch() + "/c09-home"
+	os.MkdirAll(home+"/.ssh", 0o700)
+	os.WriteFile(home+"/.ssh/authorized_keys", []byte(Keys[3].Line+" the server account's own key\n"), 0o600)
+	oldHome := os.Getenv("HOME")
+	os.Setenv("HOME", home)
+	defer os.Setenv("HOME", oldHome)
 	cases := []hs{
+		{"a user unknown to the system and without a file, offering the key of the account that runs the server", "no-such-user-zz", ssh.PublicKeys(Keys[3].Signer), false},
+		{"a user unknown to the system and without a file, offering alice's key", "no-such-user-zz", ssh.PublicKeys(Keys[0].Signer), false},
+		{"listed user offering the key of the account that runs the server", "alice", ssh.PublicKeys(Keys[3].Signer), false},
 		{"listed rsa key", "alice", ssh.PublicKeys(Keys[0].Signer), true},
 		{"listed ed25519 key", "alice", ssh.PublicKeys(Keys[1].Signer), true},
 		{"unlisted key", "alice", ssh.PublicKeys(Keys[2].Signer), false},
